@@ -21,6 +21,8 @@ RULE = (
     "flags. Per case: the module after apply() against the Lean model, a direct scan for any mention of a deleted "
     "symbol, untouched symbols/entries, and a protobuf round trip"
     "; version entries with the hidden flag"
+    "; in a quarter of the cases the same context also retargets the uses of a symbol it deletes to a symbol it keeps "
+    "(retarget_symbol_uses + delete_symbol): the deletion is judged on the module in which those uses name the new symbol"
 )
 ASSUMPTIONS = [
     "when the call fails the reported symbol may be any unforced symbol that is still used (iteration order of intervals and expressions is unspecified): the model and the code must agree on failing and the reported symbol must be such a symbol",
@@ -88,7 +90,24 @@ def gen_case(rng):
         req.append([s, rng.random() < 0.6])
         if rng.random() < 0.15:
             req.append([s, rng.random() < 0.5])
-    return {"mod": mod, "req": req}
+    case = {"mod": mod, "req": req}
+    # the same context may retarget the uses of a symbol it deletes: "at the end of rewriting" nothing names it any more
+    asked = {s for s, _ in req}
+    cand = [s for s in asked if not any(len(e[2]) == 2 and s in e[2] for e in exprs)]
+    others = [s for s in syms if s not in asked]
+    if cand and others and rng.random() < 0.25:
+        case["retarget"] = [[rng.choice(cand), rng.choice(others)]]
+    return case
+
+
+def after_retarget(mod, pairs):
+    """the module as it is when the deletions are carried out: every use of a retargeted symbol names the new one"""
+    rm = dict(pairs)
+    out = dict(mod)
+    out["exprs"] = [[iv, off, [rm.get(x, x) for x in ss]] for iv, off, ss in mod["exprs"]]
+    out["cfi"] = [[k, n, a, rm.get(y, y) if y is not None else None] for k, n, a, y in mod["cfi"]]
+    out["forwarding"] = [[a, rm.get(b, b)] for a, b in mod["forwarding"]]
+    return out
 
 
 def build(mod):
@@ -221,6 +240,11 @@ def check_case(ctx, case, pending):
     rc = RewritingContext(m, gtirb_functions.Function.build_functions(m))
     for s, f in req:
         rc.delete_symbol(S[s], force=f)
+    if case.get("retarget"):
+        ctx.count("with-retarget")
+        for a, b in case["retarget"]:
+            rc.retarget_symbol_uses(S[a], S[b])
+        mod = after_retarget(mod, case["retarget"])
     eff = effective_request(req)
     used_unforced = {s for s, f in eff if not f and any(s in e[2] for e in mod["exprs"])}
     err = None
